@@ -189,3 +189,78 @@ func c07Race(t *testing.T, st *stats, idx int) {
 		t.Errorf("fatal")
 	}
 }
+
+// c07BigTurnover: one truncation over a ledger whose genesis supply is 2^64-2 units and in which almost all of it
+// changes hands once: every single wallet's gross flow fits the amount type, but the flows of all wallets together
+// do not. The checkpointed funds must still equal each wallet's net flow over the checkpointed vertices.
+func c07BigTurnover(t *testing.T, st *stats) {
+	w, err := sim.NewWorld(sim.Config{Nodes: 1, Users: 4, GenesisC: ^uint64(0) - 1, Seed: fmt.Sprintf("c07-turnover-%d", shard())})
+	if err != nil {
+		st.note("turnover: %v", err)
+		return
+	}
+	defer w.Close()
+	worldsMade++
+	steps := []struct {
+		from, to int
+		amt      spice.Melange
+	}{
+		{0, 1, spice.New(^uint64(0)-11, 0)}, // genesis receiver hands (almost) everything to user0
+		{1, 2, spice.New(50, 500)},
+		{2, 3, spice.New(1, 1)},
+		{1, 4, spice.New(0, 999_999_999_999_999_999)},
+	}
+	for _, s := range steps {
+		if r := w.ProposeTx(0, w.MakeTx(s.from, s.to, s.amt, 0)); r.Err != nil {
+			st.note("turnover: transfer refused: %v", r.Err)
+			return
+		}
+		w.ProposeTx(0, w.MakeTx(1, 0, spice.Melange{}, 3)) // a data vertex on top confirms it
+	}
+	if err := w.Filler(0, 1030, false); err != nil {
+		st.note("turnover filler: %v", err)
+		return
+	}
+	if err := w.Truncate(0); err != nil {
+		st.note("turnover: truncate returned %v", err)
+		return
+	}
+	snap, err := w.Snapshot(w.Nodes[0])
+	if err != nil {
+		return
+	}
+	st.eval(1)
+	st.label("plan:big-turnover")
+	if len(snap.Stored) == 0 {
+		return
+	}
+	st.nontrivial(fp64("turnover", shard(), len(snap.Stored)))
+	stored := snap.StoredSet()
+	for _, k := range w.Wallets {
+		in, out := w.Arch.Flow(stored, k.Addr)
+		net := new(big.Int).Sub(in, out)
+		if net.Sign() < 0 {
+			continue // the genesis issuer
+		}
+		got := new(big.Int)
+		if f, ok := snap.Raw.Funds[k.Addr]; ok {
+			got = ref.V(f)
+		}
+		if got.Cmp(net) != 0 {
+			st.reportOnce("checkpoint-funds-wrong", fmt.Sprintf("supply 2^64-2, almost all of it transferred once: after the truncation the checkpointed funds of %s are %s; the net flow of the %d checkpointed vertices is %s", k.Name, got, len(stored), net), map[string]string{"scenario": "big-turnover"})
+			t.Errorf("checkpoint funds wrong")
+		}
+	}
+	all := ref.Union(snap.LiveSet(), stored)
+	if len(snap.Tips()) == 1 {
+		for _, k := range w.Wallets[:5] {
+			in, out := w.Arch.Flow(all, k.Addr)
+			want := new(big.Int).Sub(in, out)
+			got, err := w.Balance(0, k.Addr)
+			if err != nil || ref.V(got).Cmp(want) != 0 {
+				st.reportOnce("balance-changed", fmt.Sprintf("supply 2^64-2, after the truncation the balance of %s is %v (err %v), over all vertices it is %s", k.Name, got, err, want), map[string]string{"scenario": "big-turnover"})
+				t.Errorf("balance changed")
+			}
+		}
+	}
+}
